@@ -745,19 +745,27 @@ class HfProtocol(utils.EventEmitter):
         self.read_buffer.extend(data)
 
         while self.read_buffer:
-            # Locate header and trailer.
-            header = self.read_buffer.find(b'\r\n')
-            trailer = self.read_buffer.find(b'\r\n', header + 2)
-            if header == -1 or trailer == -1:
+            # Locate the next <CR><LF>, which is either the header or the trailer of
+            # a response.
+            trailer = self.read_buffer.find(b'\r\n')
+            if trailer == -1:
                 return
 
-            # Isolate the AT response code and parameters.
-            raw_response = self.read_buffer[header + 2 : trailer]
-            response = AtResponse.parse_from(raw_response)
-            logger.debug(f"<<< {raw_response.decode()}")
-
-            # Consume the response bytes.
+            # Consume the bytes (before parsing, so that a malformed response cannot
+            # block the ones that follow it).
+            raw_response = self.read_buffer[:trailer]
             self.read_buffer = self.read_buffer[trailer + 2 :]
+            if not raw_response:
+                # Nothing between a header and a trailer
+                continue
+
+            # Isolate the AT response code and parameters.
+            try:
+                response = AtResponse.parse_from(raw_response)
+                logger.debug(f"<<< {raw_response.decode()}")
+            except Exception:
+                logger.warning('Ignoring invalid response %r', bytes(raw_response))
+                continue
 
             # Forward the received code to the correct queue.
             if self.pending_command and (
@@ -1251,13 +1259,21 @@ class AgProtocol(utils.EventEmitter):
             if trailer == -1:
                 return
 
-            # Isolate the AT response code and parameters.
-            raw_command = self.read_buffer[:trailer]
-            command = AtCommand.parse_from(raw_command)
-            logger.debug(f"<<< {raw_command.decode()}")
-
-            # Consume the response bytes.
+            # Consume the command bytes (before parsing, so that a malformed command
+            # cannot block the ones that follow it).
+            raw_command = self.read_buffer[:trailer].strip()
             self.read_buffer = self.read_buffer[trailer + 1 :]
+            if not raw_command:
+                continue
+
+            # Isolate the AT command code and parameters.
+            try:
+                command = AtCommand.parse_from(raw_command)
+            except Exception:
+                logger.warning('Invalid command %r', bytes(raw_command))
+                self.send_error()
+                continue
+            logger.debug(f"<<< {raw_command.decode()}")
 
             if command.sub_code == AtCommand.SubCode.TEST:
                 handler_name = f'_on_{command.code.lower()}_test'
@@ -1277,7 +1293,11 @@ class AgProtocol(utils.EventEmitter):
                     )
                     self.send_error()
                     continue
-                handler(*command.parameters)
+                try:
+                    handler(*command.parameters)
+                except Exception:
+                    # Keep processing the commands that follow
+                    logger.exception('Exception in handler %s', handler_name)
             else:
                 logger.warning('Handler %s not found', handler_name)
                 self.send_response('ERROR')
